@@ -440,7 +440,7 @@ class ParseMachine(StateMachine):
         self.check_ambiguity(value)
         if self.flag and self.flag.takes_value:
             debug("Setting flag {!r} to value {!r}".format(self.flag, value))
-            self.flag.value = value
+            self.set_arg_value(self.flag, value)
             self.flag_got_value = True
         else:
             self.error("Flag {!r} doesn't take any value!".format(self.flag))
@@ -448,8 +448,16 @@ class ParseMachine(StateMachine):
     def see_positional_arg(self, value: Any) -> None:
         for arg in self.context.positional_args:
             if arg.value is None:
-                arg.value = value
+                self.set_arg_value(arg, value)
                 break
+
+    def set_arg_value(self, arg: Any, value: Any) -> None:
+        # A value its argument's type cannot digest (e.g. text for an int) is a
+        # parse error like any other, not an internal one.
+        try:
+            arg.value = value
+        except ValueError as e:
+            self.error("Invalid value {!r} for {!r}: {}".format(value, arg, e))
 
     def error(self, msg: str) -> None:
         raise ParseError(msg, self.context)
